@@ -1022,7 +1022,12 @@ class BaseMatcher:
                         edge_o = Segment(f"O{obs_idx}", obs, f"O{obs_idx+1}", obs_next)
                         m_next = m.next(edge_m, edge_o, obs=obs_idx, obs_ne=nb_ne)
                         if m_next is not None:
-                            if m_next.key in cur_lattice_new:
+                            if m_next.stop:
+                                # Stopped matchings only exist when debugging: keep them for inspection
+                                # but do not let them influence the search
+                                if m_next.key not in cur_lattice_new:
+                                    cur_lattice_new[m_next.key] = m_next
+                            elif m_next.key in cur_lattice_new and not cur_lattice_new[m_next.key].stop:
                                 cur_lattice_new[m_next.key].update(m_next)
                             else:
                                 if m_next.shortkey in lattice_best:
@@ -1076,7 +1081,10 @@ class BaseMatcher:
                         edge_o = Segment(f"O{obs_idx+1}", obs_next)
                         m_next = m.next(edge_m, edge_o, obs=obs_idx)
                         if m_next is not None:
-                            if m_next.shortkey in lattice_best:
+                            if m_next.stop:
+                                # Only kept for inspection when debugging, not used for matching
+                                self.lattice[obs_idx].upsert(m_next)
+                            elif m_next.shortkey in lattice_best:
                                 # if m_next.dist_obs < lattice_best[m_next.shortkey].dist_obs:
                                 if m_next.logprob > lattice_best[m_next.shortkey].logprob:
                                     lattice_best[m_next.shortkey] = m_next
@@ -1120,7 +1128,10 @@ class BaseMatcher:
                         edge_o = Segment(f"O{obs_idx+1}", obs_next)
                         m_next = m.next(edge_m, edge_o, obs=obs_idx)
                         if m_next is not None:
-                            if m_next.shortkey in lattice_best:
+                            if m_next.stop:
+                                # Only kept for inspection when debugging, not used for matching
+                                self.lattice[obs_idx].upsert(m_next)
+                            elif m_next.shortkey in lattice_best:
                                 # if m_next.dist_obs < lattice_best[m_next.shortkey].dist_obs:
                                 if m_next.logprob > lattice_best[m_next.shortkey].logprob:
                                     lattice_best[m_next.shortkey] = m_next
